@@ -554,6 +554,11 @@ func services(
 			})
 		}
 
+		if len(services) == 0 {
+			// A ServiceEntry without hosts (validation rejects it, but the store may still hold one)
+			// defines no service; there is nothing to select workloads for.
+			return nil
+		}
 		dnsService := isDNSTypeService(services[0])
 		selectedWorkloads := workloadsByNamespace.Fetch(
 			ctx,
